@@ -24,6 +24,14 @@ void h_cb_invoke(void) { MK_EXC(); CBT fn;
 #endif
   env_resolve(CB_FUT((CB *)o)); SP *r; cv_i8 *ctx; cb_invoke(r, CB_AWT((CB *)o), ctx); SENT_OUTCOMES(); }
 #endif
+#ifdef CV_HAS_cb_shift
+void h_cb_shift(void) { MK_EXC(); CBT cbf; gh_tag = cbf.tag;
+  VT_CB->f0[2] = (cv_i8 *)_ZN5cocls14future_with_cbIi6c18_cbED2Ev; VT_CB->f0[3] = (cv_i8 *)_ZN5cocls14future_with_cbIi6c18_cbED0Ev;
+  CB *o = malloc(sizeof(CB)); __CPROVER_assume(o != 0); cb_ctor_fn(o, &cbf); gh_obj = o;
+  FAC *fn; cb_shift(o, fn); SENT_OUTCOMES();          /* timing sentinels by the environment's choices (the unchanged operator<< never reaches the subscription) */
+  SENT(gh_fac_ready, "already resolved at registration"); SENT(!gh_fac_ready && !gh_sub_ret, "resolved by another thread just before the registration");
+  SENT(!gh_fac_ready && gh_sub_ret && !gh_sub_conc, "registered, resolves later"); SENT(!gh_fac_ready && gh_sub_ret && gh_sub_conc, "registered, resolved concurrently before the registering thread continues"); }
+#endif
 #ifdef CV_HAS_make_promise
 void h_make_promise(void) { PROM *r; CBT *fn; make_promise(r, fn); SENT(1, "after make_promise"); }
 #endif
@@ -60,6 +68,23 @@ void h_conv_f_invoke(void) { MK_EXC(); MK_CONV(o); P_OWNER(CV_PROM(o)) = outer; 
 #ifdef CV_HAS_conv_p_invoke_u
 void h_conv_p_invoke(void) { MK_EXC(); MK_CONV(o); P_OWNER(CV_PROM(o)) = outer; env_resolve(CV_FUT(o)); SP *r; conv_p_invoke(r, CV_AWT(o), (cv_i8 *)cx); SENT_CONV();
   SENT(gh_out_state == ST_VALUE && !gh_conv_throws && gh_conv_uses_promise, "converter resolved the outer promise itself"); SENT(gh_out_state == ST_VALUE && !gh_conv_throws && !gh_conv_uses_promise, "converter left the promise alone"); }
+#endif
+/* void source (audit E/D3): the resolved source future carries a state (and an exception) but no payload */
+#define MK_CONV0(o) CONVBV *o = malloc(sizeof(CONVBV)); __CPROVER_assume(o != 0); gh_obj = o; CTX0 *cx = malloc(sizeof(CTX0)); __CPROVER_assume(cx != 0); \
+  FUTL *outer = malloc(sizeof(FUTL)); __CPROVER_assume(outer != 0); gh_outer = outer; CV_AWT(o)->_handle_addr = (cv_i8 *)cx; CV_AWT(o)->_next = 0
+#define ENV_RESOLVE_V(f) do { F_STATE(f) = gh_out_state; if (gh_out_state == ST_EXCEPTION) F_EXCP(f) = gh_out_exc; *F_SLOT(f) = F_DIS; } while (0)
+#ifdef CV_HAS_conv_v_invoke_u
+void h_conv_v_invoke(void) { MK_EXC(); MK_CONV0(o); P_OWNER(CV_PROM(o)) = outer; ENV_RESOLVE_V(CV_FUT(o)); SP *r; conv_v_invoke(r, CV_AWT(o), (cv_i8 *)cx); SENT_CONV(); }
+#endif
+#ifdef CV_HAS_conv_vp_invoke_u
+void h_conv_vp_invoke(void) { MK_EXC(); MK_CONV0(o); P_OWNER(CV_PROM(o)) = outer; ENV_RESOLVE_V(CV_FUT(o)); SP *r; conv_vp_invoke(r, CV_AWT(o), (cv_i8 *)cx); SENT_CONV();
+  SENT(gh_out_state == ST_VALUE && !gh_conv_throws && gh_conv_uses_promise, "converter resolved the outer promise itself"); SENT(gh_out_state == ST_VALUE && !gh_conv_throws && !gh_conv_uses_promise, "converter left the promise alone"); }
+#endif
+#ifdef CV_HAS_conv_v_ctor
+void h_conv_v_ctor(void) { CONVV *o; CTX0 *c; conv_v_ctor(o, c); SENT(1, "after future_conv<member fn, void source>()"); }
+#endif
+#ifdef CV_HAS_conv_vp_ctor
+void h_conv_vp_ctor(void) { CONVVP *o; CTX0 *c; conv_vp_ctor(o, c); SENT(1, "after future_conv<member fn with promise, void source>()"); }
 #endif
 #ifdef CV_HAS_conv_m_ctor
 void h_conv_m_ctor(void) { CONVM *o; CTX *c; conv_m_ctor(o, c); SENT(1, "after future_conv<member fn>()"); }
